@@ -4,6 +4,7 @@ import (
 	"encoding/binary"
 	"fmt"
 	"io"
+	"math"
 )
 
 // MP4ChunkParser is a parser for fragmented mp4 content.
@@ -62,6 +63,9 @@ func (p *MP4ChunkParser) Parse() error {
 		currBox = string(p.buf[nextBoxStart+4 : nextBoxStart+8])
 		if size < 8 {
 			return fmt.Errorf("box %q with impossible size %d", currBox, size)
+		}
+		if uint64(nextBoxStart)+uint64(size) > math.MaxUint32 {
+			return fmt.Errorf("box %q of size %d ends beyond the 32-bit offset range", currBox, size)
 		}
 		nextBoxStart += size
 		switch currBox {
